@@ -18,7 +18,7 @@ func init() {
 			"X1 at-most-once submission (each of the three submission sites is protected by a test-and-set flag OR runJob records the job synchronously before handing it to the job manager - a disjunction on purpose, the code calls the flags belt and suspenders), " +
 			"X2 the disabled test precedes every submission / completion write in doSplit and stepPipeline and a disabled fork writes the disabled marker, " +
 			"X3 an empty or null mapped collection reaches writeDisable in the fork-expansion functions and Fork.disabled reports a zero-length range, " +
-			"X4 skipping preflights is guarded by Preflight && SkipPreflight and skip() has no other callers; O1 (shared with C02) bounds where jobs can be submitted. " +
+			"X4 skipping preflights is guarded by Preflight && SkipPreflight and skip() has no other callers; X5 a node's list of disabling conditions, which children and siblings share, is never extended in place (may-alias analysis: no append whose first operand can share the backing array of a CallGraphStage.Disable); O1 (shared with C02) bounds where jobs can be submitted. " +
 			"NOT decided: one fork per element/key (run-time counts), liveness (no job skipped).",
 		Assumptions: commonAssumptions,
 	}
@@ -30,6 +30,7 @@ func runC03(c *an.Ctx) {
 	ruleX2(c)
 	ruleX3(c)
 	ruleX4(c)
+	ruleX5(c)
 }
 
 // ---------------------------------------------------------------------------
